@@ -99,6 +99,7 @@ def alphabet(model: RefStorage, b: Binding, size: str) -> list[tuple]:
         ops.append(("set_iv", tid, 0, 0.5))
         if t is not None:
             ops.append(("set_iv", tid, 0, NAN))
+            ops.append(("set_iv", tid, 0, INF))  # the same step again: one non-finite value replaces another
             ops.append(("set_iv", tid, 1, -INF))
         ops.append(("trial_user_attr", tid, "k", [1, {"k": None}]))
         if t is not None:
@@ -122,6 +123,8 @@ SEEDS: dict[str, list[tuple]] = {
                   ("delete_study", 0), ("create_study", "A", (MAX,))],
     "wait-run-fin": [("create_study", "A", (MIN,)), ("create_trial", 0, "wait"), ("create_trial", 0, None),
                      ("set_state", 1, S.COMPLETE, (2.0,)), ("read_waiting", 0, False)],
+    # a step already holding a non-finite value (every backend encodes those specially)
+    "iv-nan": [("create_study", "A", (MIN,)), ("create_trial", 0, None), ("set_iv", 0, 0, NAN)],
     # two RUNNING trials: per-study checks that look at "the other trials" (distribution
     # compatibility) must not depend on which of them was created first
     "two-running": [("create_study", "A", (MIN,)), ("create_trial", 0, None), ("create_trial", 0, None)],
@@ -429,7 +432,7 @@ def run(tier: str, replay: str | None = None) -> int:
     return ctx.finish(
         exhaustive=True,
         rule="every history up to the depth bound per (configuration, seeded non-initial state), de-duplicated on (model state, implementation digest)",
-        extra={"bounds": {"quick": "fast backends: depth 3 from empty, 2 from 10 seeded states (full alphabet, full observation); SQLite-backed: depth 2 / 1 (small alphabet, light observation)",
+        extra={"bounds": {"quick": "fast backends: depth 3 from empty, 2 from 11 seeded states (full alphabet, full observation); SQLite-backed: depth 2 / 1 (small alphabet, light observation)",
                           "thorough": "mem: depth 4 / 3 full alphabet; jlist, jfile-sym, grpc(mem): 4 / 3 small alphabet; other fast: 3 / 2 full; SQLite-backed: 3 / 2 small alphabet, light observation"}[tier]},
     )
 
